@@ -74,7 +74,11 @@ def decode_seg(d, errors):
             seg[3] = seg[2]  # circular
     else:
         cls, seg = gen.segment(d, k, c=cc)
-    return {"kind": "seg", "seg": seg, "cls": cls, "error": d.choice(errors), "iso": iso(d)}
+    case = {"kind": "seg", "seg": seg, "cls": cls, "error": d.choice(errors), "iso": iso(d)}
+    if d.bool():
+        case["iso2"] = iso(d)  # a second map, applied to the image of the first
+        case["iso2_inplace"] = d.bool()
+    return case
 
 
 def decode_path(d, errors):
@@ -323,6 +327,33 @@ def check_seg(case):
     tol = 2.0 * e * (1.0 + s) + 1e-9 * max(abs(L), abs(Li), 1e-3) + band
     if not core.isnum(Li) or abs(Li - s * L) > tol:
         return o.violation("metamorphic:%s:%s" % (case["iso"]["cls"], k), "%r: length %r, after %s %r length %r (expected %r)" % (case["seg"], L, case["iso"]["cls"], M, Li, s * L))
+    if case.get("iso2"):
+        # the image mapped once more (as a product with a copy, or in place): still s2 times the length it had
+        M2 = case["iso2"]["m"]
+        s2 = math.sqrt(abs(gen.mat_det(M2)))
+        o.label("second-map:%s-then-%s" % ("mirror" if gen.mat_det(M) < 0 else "direct", "mirror" if gen.mat_det(M2) < 0 else "direct"))
+        if case.get("iso2_inplace"):
+            img2 = _copy.copy(img)
+            img2 *= lib.mk_matrix(M2)
+        else:
+            img2 = img * lib.mk_matrix(M2)
+        L2 = img2.length(error=e)
+        band2 = 0.0
+        sub_c = subdivision_kind(img2)
+        if (sub_a or sub_b or sub_c) and ("scale" in (case["iso"]["cls"], case["iso2"]["cls"]) or not (sub_a == sub_b == sub_c)):
+            top = ref if ok else polygon_length(seg, 4096) * (1.0 + 1e-6)
+            band2 = (1.0 + s + s * s2) * max(0.0, top - polygon_length(seg))
+        tol2 = 2.0 * e * (1.0 + s + s * s2) + 1e-9 * max(abs(L), abs(Li), abs(L2), 1e-3) + band2
+        if not core.isnum(L2) or abs(L2 - s * s2 * L) > tol2:
+            return o.violation("metamorphic:second-map:%s" % k, "%r: length %r; mapped by %r then %r (%s): length %r, expected %r" % (
+                case["seg"], L, M, M2, "in place" if case.get("iso2_inplace") else "product", L2, s * s2 * L))
+        # and it still ends where the maps send its end points
+        for name, pt in (("start", seg.start), ("end", seg.end)):
+            want = gen.mat_apply(M2, gen.mat_apply(M, lib.xy(pt)))
+            got = lib.xy(getattr(img2, name))
+            Sx = max(1.0, abs(want[0]), abs(want[1]), abs(lib.xy(pt)[0]), abs(lib.xy(pt)[1])) * (1.0 + gen.mat_norm(M)) * (1.0 + gen.mat_norm(M2))
+            if not core.pclose(got, want, 1e-9 * Sx):
+                return o.violation("metamorphic:second-map:%s-point" % name, "%r mapped by %r then %r: %s = %r, expected %r" % (case["seg"], M, M2, name, got, want))
     rev = _copy.copy(seg)
     rev.reverse()
     Lr = rev.length(error=e)
